@@ -3,6 +3,7 @@ import Netpol.Model.Engine
 import Netpol.Model.Diff
 import Netpol.Model.Ingress
 import Netpol.Model.Cache
+import Netpol.Model.Exposure
 /-! Driver side of the world-level correspondence (`wcase` lines). -/
 namespace Netpol
 namespace WorldDriver
@@ -72,9 +73,49 @@ def runEvalAll (objs : List Obj) : Sexp :=
             (acc.1 ++ (match r with | .ok true => "1" | .ok false => "0" | .error _ => "e"), st)) acc) acc) acc) ("", s0)
     .list [.atom "evalall", .atom bits]
 
+def selSx (s : Option Selector) : Sexp :=
+  let s := s.getD ⟨[], []⟩
+  let ml := s.matchLabels.mergeSort (fun a b => a.1 ≤ b.1)
+  .list [.atom "sel", .list (.atom "ml" :: ml.map fun (k, v) => .list [.atom k, .atom v]),
+    .list (.atom "me" :: s.exprs.map fun r => .list ([.atom r.key, .atom (match r.op with
+      | .In => "In" | .NotIn => "NotIn" | .Exists => "Exists" | .DoesNotExist => "DoesNotExist")] ++ r.vals.map .atom))]
+
+def xEntrySx (x : Exposure.XEntry) : Sexp :=
+  .list [.atom "ent", .atom (if x.entireCluster then "ALL" else "SEL"), selSx (if x.entireCluster then none else x.nsSel),
+    selSx (if x.entireCluster then none else x.podSel), .atom (us x.conn.toStr)]
+
+def sortSx (l : List Sexp) : List Sexp := (l.map fun x => (toString x, x)).mergeSort (fun a b => a.1 ≤ b.1) |>.map (·.2)
+
+/-- `(listx FOCUS|-)`: `list --exposure` — the base report and the exposed peers -/
+def runListX (objs : List Obj) (focus : String) : Sexp :=
+  match Exposure.build objs with
+  | .error e => errSx e
+  | .ok x =>
+    let eng := x.eng
+    if eng.pods.isEmpty then .list [.atom "ok", .list [.atom "peers"]]
+    else match eng.peersList with
+      | .error e => errSx e
+      | .ok peers =>
+        let focusExists := focus == "" || peers.any (Engine.isFocus focus)
+        if !focusExists then .list [.atom "ok", .atom "nofocus"]
+        else if Exposure.repNamespaceError x peers focus then errSx .missingNamespace
+        else match Exposure.connsBetweenPeers eng peers focus, Exposure.exposedPeers x peers focus with
+          | .error e, _ => errSx e
+          | _, .error e => errSx e
+          | .ok entries, .ok xs =>
+            let lines := sortStrs (entries.map fun e =>
+              e.src.str ++ " " ++ e.dst.str ++ " " ++ us (ConnSet.connStrFromProps e.conn.allowAll e.conn.protocolsAndPorts))
+            .list ([.atom "ok", .list (.atom "peers" :: (sortStrs (peers.map (·.str))).map .atom)] ++
+              (lines.map fun l => .list (.atom "e" :: (l.splitOn " ").map .atom)) ++
+              sortSx (xs.map fun p => .list [.atom "x", .atom p.name,
+                .list (.atom "ing" :: .atom (b01' p.ingProtected) :: sortSx (p.ing.map xEntrySx)),
+                .list (.atom "eg" :: .atom (b01' p.egProtected) :: sortSx (p.eg.map xEntrySx))]))
+where b01' (b : Bool) : String := if b then "1" else "0"
+
 def runQuery (objs : List Obj) (q : Sexp) : Sexp :=
   match q with
   | .list [.atom "evalall"] => runEvalAll objs
+  | .list [.atom "listx", .atom f] => runListX objs (if f == "-" then "" else f)
   | .list [.atom "list", .atom f] => runList objs (if f == "-" then "" else f)
   | _ => .atom "bad-query"
 
